@@ -70,10 +70,71 @@ def run(status, exc, with_cb, cb_raises, put_fails):
     return bad, log
 
 
+def run_call(outcome):
+    """Worker.__call__ on the real code with workloop / after_fork / _do_exit replaced by recorders: which status and
+    exception reach _do_exit"""
+    import billiard.common as common
+    log = []
+    real_sys_exit = sys.exit
+
+    class W(pool.Worker):
+        def _make_child_methods(self):
+            log.append(('setup', 1))
+
+        def after_fork(self):
+            log.append(('setup', 2))
+
+        def on_loop_start(self, pid):
+            log.append(('setup', 3))
+
+        def workloop(self, pid=None):
+            if outcome == 'returns':
+                return 155
+            if outcome == 'signal':
+                # what common._shutdown_cleanup does when the termination signal arrives inside the loop
+                sys.exit(-241)
+            if outcome == 'error':
+                raise KeyError('loop failed')
+            raise KeyboardInterrupt()
+
+        def _do_exit(self, pid, exitcode, exc=None):
+            log.append(('do_exit', exitcode, type(exc).__name__ if exc is not None else None))
+            raise Exited()
+    w = W.__new__(W)
+    real_error = pool.error
+    pool.error = lambda *a, **k: None
+    try:
+        try:
+            w()
+            log.append(('returned',))
+        except Exited:
+            pass
+        except BaseException as e:       # noqa
+            log.append(('raised', type(e).__name__))
+    finally:
+        sys.exit = real_sys_exit
+        pool.error = real_error
+    want = {'returns': (155, None), 'signal': (-241, None), 'error': (None, 'KeyError'), 'interrupt': (None, None)}[outcome]
+    exits = [e for e in log if e[0] == 'do_exit']
+    bad = []
+    if [e[1] for e in log if e[0] == 'setup'] != [1, 2, 3]:
+        bad.append('set-up steps before the loop: %r' % (log,))
+    if not exits or exits[0][1:] != want:
+        bad.append('the worker loop %s: _do_exit got %r (expected status %r, exception %r)' % (
+            outcome, exits[:1], want[0], want[1]))
+    return bad
+
+
 def main():
     data = json.load(open(sys.argv[1]))
     print('replay of %s / %s' % (data['function'], data['obligation']))
     found = 0
+    for outcome in ('returns', 'signal', 'error', 'interrupt'):
+        bad = run_call(outcome)
+        if bad:
+            found += 1
+            for b in bad:
+                print('  violation on real code: ' + b)
     for status, exc, with_cb, cb_raises, put_fails in itertools.product(
             (None, 0, 1, 155, -15), (None, ValueError('x')), (True, False), (False, True), (False, True)):
         bad, log = run(status, exc, with_cb, cb_raises, put_fails)
